@@ -18,6 +18,7 @@ RULE = ("Hypothesis: base = well-formed sequence on 1-2 channels with time/key s
         "combinations are evaluated per pair, both argument orders, plus ==. Ground truth: 'same' => True everywhere; "
         "perturbed => False unless exactly the owning ignore flag is set (then True). Non-trivial = perturbation cases; "
         "distinct by case digest.")
+RULE = RULE + " Round f: an identical ill-formed decoration (a pitch struck twice without note-off) on both sides."
 ASSUMPTIONS = ["for a single-note channel change the result under ignore_channel is not specified by the statement and not checked",
                "trailing rests (total duration) are not an attribute the statement lists; partners always have equal content"]
 TIERS = {"quick": dict(shards=8, examples=1200, alt_ppqn=[480], alt_shards=2),
